@@ -82,5 +82,9 @@ func NewTermPrefixSearcher(ctx context.Context, indexReader index.IndexReader, p
 		return NewTermSearcher(ctx, indexReader, prefix, field, boost, options)
 	}
 
-	return NewMultiTermSearcher(ctx, indexReader, terms, field, boost, options, true)
+	mts, err := NewMultiTermSearcher(ctx, indexReader, terms, field, boost, options, true)
+	if err != nil {
+		return nil, err
+	}
+	return termOrMultiTermSearcher(ctx, indexReader, mts, len(terms), prefix, field, boost, options)
 }
